@@ -15,6 +15,8 @@ mod parser;
 mod precedence;
 mod tests;
 mod token_set;
+#[cfg(jrsonnet_verif)]
+pub mod verif;
 
 pub use ast::{AstChildren, AstNode, AstToken};
 pub use generated::{nodes, syntax_kinds::SyntaxKind};
@@ -30,6 +32,8 @@ pub fn parse(input: &str) -> (SourceFile, Vec<LocatedSyntaxError>) {
 		.collect();
 	let parser = Parser::new(kinds);
 	let events = parser.parse();
+	#[cfg(jrsonnet_verif)]
+	verif::record(&events, &lexemes);
 	let sink = Sink::new(events, &lexemes);
 
 	let parse = sink.finish();
